@@ -1,6 +1,7 @@
 package props
 
 import (
+	"go/constant"
 	"os"
 	"go/ast"
 	"go/token"
@@ -110,6 +111,18 @@ func defVertices(g *core.Graph, obj types.Object) []*core.V {
 			for _, nm := range s.Names {
 				if g.Info.ObjectOf(nm) == obj {
 					out = append(out, v)
+				}
+			}
+		case *ast.DeclStmt:
+			if gd, ok := s.Decl.(*ast.GenDecl); ok && gd.Tok == token.VAR {
+				for _, sp := range gd.Specs {
+					if vs, ok := sp.(*ast.ValueSpec); ok {
+						for _, nm := range vs.Names {
+							if g.Info.ObjectOf(nm) == obj {
+								out = append(out, v)
+							}
+						}
+					}
 				}
 			}
 		case *ast.IncDecStmt:
@@ -762,6 +775,27 @@ func valueCases(g *core.Graph, at *core.V, e ast.Expr, depth int) []vcase {
 						rhs = s.Values[i]
 					}
 				}
+			} else if len(s.Values) == 0 {
+				rhs = zeroValueExpr(info, obj)
+			}
+		case *ast.DeclStmt:
+			if gd, ok := s.Decl.(*ast.GenDecl); ok {
+				for _, sp := range gd.Specs {
+					vs, ok := sp.(*ast.ValueSpec)
+					if !ok {
+						continue
+					}
+					for i, n := range vs.Names {
+						if info.ObjectOf(n) != obj {
+							continue
+						}
+						if len(vs.Values) == len(vs.Names) {
+							rhs = vs.Values[i]
+						} else if len(vs.Values) == 0 {
+							rhs = zeroValueExpr(info, obj)
+						}
+					}
+				}
 			}
 		}
 		if rhs == nil {
@@ -921,4 +955,43 @@ func atomsBetween(g *core.Graph, from, to *core.V, avoid []*core.V) []core.Atom 
 		}
 	}
 	return out
+}
+
+// zeroValueExpr returns a literal for the zero value of a variable declared
+// without initialiser (numbers 0, booleans false); nil for other types.
+func zeroValueExpr(info *types.Info, obj types.Object) ast.Expr {
+	b, ok := obj.Type().Underlying().(*types.Basic)
+	if !ok {
+		return nil
+	}
+	switch {
+	case b.Info()&types.IsInteger != 0:
+		lit := &ast.BasicLit{Kind: token.INT, Value: "0"}
+		info.Types[lit] = types.TypeAndValue{Type: obj.Type(), Value: constant.MakeInt64(0)}
+		return lit
+	case b.Info()&types.IsBoolean != 0:
+		id := &ast.Ident{Name: "false"}
+		info.Types[id] = types.TypeAndValue{Type: obj.Type(), Value: constant.MakeBool(false)}
+		return id
+	}
+	return nil
+}
+
+// sameBranch reports whether two vertices are guarded by the same branch
+// edges (they lie in the same arm of every decision).
+func sameBranch(g *core.Graph, a, b *core.V) bool {
+	ea, eb := g.DominatingEdges(a), g.DominatingEdges(b)
+	if len(ea) != len(eb) {
+		return false
+	}
+	set := map[core.EdgeRef]bool{}
+	for _, e := range ea {
+		set[e] = true
+	}
+	for _, e := range eb {
+		if !set[e] {
+			return false
+		}
+	}
+	return true
 }
